@@ -33,6 +33,19 @@ def main():
         tree = os.path.join(scratch, 'repo')
         shutil.copytree('/repo', tree, ignore=shutil.ignore_patterns('.git', '__pycache__', '*.pyc', 'docs', 'images'))
         env = {'PYTHONPATH': tree, 'PYTHONDONTWRITEBYTECODE': '1'}
+        check_env = {'PSA_NO_EVIDENCE': '1'}
+        # a refactoring written for an earlier commit whose lines a later repair touched: analyse it on that commit
+        base_file = os.path.join(os.path.dirname(patch), 'base.json')
+        rc0, _ = run(['patch', '-p1', '--dry-run', '-F0', '-i', patch], cwd=tree)
+        if rc0 != 0 and os.path.exists(base_file):
+            base = json.load(open(base_file))
+            shutil.rmtree(tree)
+            os.makedirs(tree)
+            p1 = subprocess.Popen(['git', '-C', '/repo', 'archive', base['commit']], stdout=subprocess.PIPE)
+            subprocess.run(['tar', '-x', '-C', tree], stdin=p1.stdout, check=True)
+            p1.wait()
+            out['base'] = base['commit']
+            check_env['PSA_OPEN_AT_BASE'] = ','.join(base.get('open_findings', []))
         clean_out = None
         if equiv:
             rc, clean_out = run([PY, equiv], cwd=tree, env=env)
@@ -54,7 +67,7 @@ def main():
             out['equiv_tail'] = ref_out.strip().splitlines()[-2:]
 
         def one(p):
-            rc, o = run([os.path.join(VERIF, 'check'), p, '--repo', tree], cwd=VERIF, env={'PSA_NO_EVIDENCE': '1'})
+            rc, o = run([os.path.join(VERIF, 'check'), p, '--repo', tree], cwd=VERIF, env=check_env)
             return p, rc, o
         alarms, errors = {}, {}
         with ThreadPoolExecutor(max_workers=8) as ex:
